@@ -1810,6 +1810,7 @@ sqascii_PositionByKey(ESL_SQFILE *sqfp, const char *key)
 
   if (ascii->ssi == NULL)                          ESL_EXCEPTION(eslEINVAL,"Need an open SSI index to call esl_sqfile_PositionByKey()");
   if ((status = esl_ssi_FindName(ascii->ssi, key, &fh, &offset, NULL, NULL)) != eslOK) return status;
+  if (offset < 0) return eslEFORMAT;  /* an index made from an alignment file has no record offsets: it does not describe this (unaligned) file */
   return esl_sqfile_Position(sqfp, offset);
 }
 
